@@ -165,7 +165,12 @@ def fold_items(f):
         d = dom(pt)
         lp = in_loop(c)
         if lp is not None:
-            items.append(("list", d, expr_str(core(a))[:40], loop_id(f, lp), c))
+            txt = expr_str(core(a))
+            if lp.get("k") == "forrange" and lp.get("var"):
+                # name the element by the container it comes from, not by the loop variable (stable under renaming the variable)
+                import re as _re
+                txt = _re.sub(r"\b%s\b" % _re.escape(lp["var"]), "%s[]" % expr_plain(lp.child("range")).replace("this->", ""), txt)
+            items.append(("list", d, txt[:60], loop_id(f, lp), c))
         elif d.startswith("list:"):
             items.append(("list", d[5:], expr_str(core(a))[:40], None, c))
         else:
